@@ -24,13 +24,15 @@ Proof.
   unfold next_key. destruct (q_pol q) as [|keep| | |gs].
   - destruct (q_ordering q) eqn:Eo; [discriminate|]. intros [= <- <-]. rewrite <- Eo.
     eexists _, _, _, _. symmetry. apply set_state_id.
-  - destruct (q_complete q); [discriminate|]. destruct (zlen (q_ordering q) =? 0); [discriminate|].
+  - destruct (q_complete q); [discriminate|].
+    destruct (zlen (q_ordering q) =? 0); [destruct (r_empty_guard R); discriminate|].
     destruct keep.
     + destruct (znth _ _); [|discriminate]. intros [= <- <-]. eexists _, _, _, _. reflexivity.
     + destruct (inter_skip _ _ _ _) as [[i' k]|]; [|discriminate]. intros [= <- <-]. eexists _, _, _, _. reflexivity.
   - destruct (q_ordering q); [discriminate|]. destruct (q_choices q); [discriminate|].
     destruct (memZ _ _); [|discriminate]. intros [= <- <-]. eexists _, _, _, _. reflexivity.
   - destruct (q_complete q); [discriminate|].
+    destruct (r_empty_guard R && (zlen (q_ordering q) =? 0)); [discriminate|].
     destruct (q_iperm q) as [|a ip].
     + destruct (q_perms q) as [|pp rest]; [discriminate|].
       destruct (negb _); [discriminate|]. destruct (rev pp); [discriminate|].
@@ -45,20 +47,23 @@ Qed.
 Definition is_empty_core (q : qstate) : bool :=
   match q_pol q with
   | PFifo | PRandom | PGrouped _ => match q_ordering q with [] => true | _ => false end
-  | PInter _ | PBlockedRandom => q_complete q
+  | PInter _ | PBlockedRandom => q_complete q || (zlen (q_ordering q) =? 0)
   end.
 
-Lemma next_key_empty R q : next_key R q = NEmpty <-> is_empty_core q = true.
+(* under the repair r_empty_guard (interleaved / blocked-random queues with nothing queued report empty) *)
+Lemma next_key_empty R (HR : r_empty_guard R = true) q : next_key R q = NEmpty <-> is_empty_core q = true.
 Proof.
-  unfold next_key, is_empty_core. destruct (q_pol q) as [|keep| | |gs].
+  unfold next_key, is_empty_core. rewrite HR. destruct (q_pol q) as [|keep| | |gs].
   - destruct (q_ordering q); split; intros; try reflexivity; discriminate.
-  - destruct (q_complete q); [tauto|]. split; [|discriminate].
-    destruct (zlen (q_ordering q) =? 0); [discriminate|]. destruct keep.
+  - destruct (q_complete q); [tauto|]. cbn [orb].
+    destruct (zlen (q_ordering q) =? 0); [tauto|]. split; [|discriminate].
+    destruct keep.
     + destruct (znth _ _); discriminate.
     + destruct (inter_skip _ _ _ _) as [[i' k]|]; discriminate.
   - destruct (q_ordering q); [tauto|]. split; [|discriminate].
     destruct (q_choices q); [discriminate|]. destruct (memZ _ _); discriminate.
-  - destruct (q_complete q); [tauto|]. split; [|discriminate].
+  - destruct (q_complete q); [tauto|]. cbn [orb andb].
+    destruct (zlen (q_ordering q) =? 0); [tauto|]. split; [|discriminate].
     destruct (q_iperm q) as [|a ip].
     + destruct (q_perms q) as [|pp rest]; [discriminate|].
       destruct (negb _); [discriminate|]. destruct (rev pp); [discriminate|]. destruct (znth _ _); discriminate.
@@ -111,9 +116,9 @@ Proof.
   exists key, q1, q2, e, dl. repeat split; auto. lia.
 Qed.
 
-Lemma next_trial_empty R q : next_trial R q = NTempty <-> is_empty_core q = true.
+Lemma next_trial_empty R (HR : r_empty_guard R = true) q : next_trial R q = NTempty <-> is_empty_core q = true.
 Proof.
-  rewrite <- (next_key_empty R). unfold next_trial.
+  rewrite <- (next_key_empty R HR). unfold next_trial.
   destruct (next_key R q) as [key q1| |]; [|tauto|split; discriminate].
   split; [|discriminate].
   destruct (decrement_key q1 key) as [q2|]; [|discriminate].
@@ -347,7 +352,7 @@ Lemma Base_empty_step keys q s :
   Base p es keys q -> q_source q = None -> q_delay q <= 0 -> next_trial all_rep q = NTempty ->
   Base p es keys (add_samples q s true).
 Proof.
-  intros B Hs Hd Hn. apply next_trial_empty in Hn. destruct B. constructor; cbn; auto.
+  intros B Hs Hd Hn. apply (next_trial_empty all_rep eq_refl) in Hn. destruct B. constructor; cbn; auto.
   rewrite orb_true_r. discriminate.
 Qed.
 
@@ -385,7 +390,7 @@ Proof.
   - lia.
   - rewrite nf_src0. cbn [rem_of add_trials e_len]. lia.
   - rewrite nf_empty0. intros He. destruct (b_empty0 He) as (_ & _ & Hc).
-    apply (next_trial_empty all_rep) in Hc. congruence.
+    apply (next_trial_empty all_rep eq_refl) in Hc. congruence.
   - rewrite nf_empty0. intros He. specialize (b_time0 He). rewrite Hsrc in b_time0. cbn [rem_of] in b_time0.
     rewrite nf_src0, nf_delay0, nf_samples0, zlen_app. cbn [rem_of add_trials e_len].
     change (zlen [key]) with 1. unfold Mtrial in *. nia.
